@@ -35,16 +35,18 @@ ASSUMPTIONS = ['the transport double stands in for the kernel: descriptors are d
 # sender side
 
 @st.composite
-def fd_args(draw):
-    """(signature, trees) with 0-3 'h' leaves in assorted positions."""
-    shapes = draw(st.lists(st.sampled_from(['h', 'i', 's', 'ah', '(hi)', '(sh)', 'a(ih)', 'y', 'x', 'as']),
+def fd_args(draw, variants=False):
+    """(signature, trees) with 0-3 'h' leaves in assorted positions (inside variants too when the message is one another
+    implementation would send: txdbus itself cannot put a descriptor into a variant)."""
+    shapes = draw(st.lists(st.sampled_from(['h', 'i', 's', 'ah', '(hi)', '(sh)', 'a(ih)', 'y', 'x', 'as'] +
+                                           (['v', 'a{sv}', 'v'] if variants else [])),
                            min_size=0, max_size=4))
     sig = ''
     trees = []
     nh = 0
     tok = draw(st.integers(100, 60000))
     for t in shapes:
-        if nh >= 3 and 'h' in t:
+        if nh >= 3 and ('h' in t or t in ('v', 'a{sv}')):
             t = 'i'
         if t == 'ah':
             k = draw(st.integers(0, 3 - nh))
@@ -63,6 +65,13 @@ def fd_args(draw):
         elif t == '(sh)':
             tr = ['x', tok + nh]
             nh += 1
+        elif t == 'v':
+            tr = ['h', tok + nh]
+            nh += 1
+        elif t == 'a{sv}':
+            k = draw(st.integers(0, min(2, 3 - nh)))
+            tr = [['stdout', ['h', tok + nh]], ['stderr', ['h', tok + nh + 1]]][:k] + [['mode', ['s', 'rw']]]
+            nh += k
         else:
             tr = draw(S.tree_for(t))
         sig += t
@@ -100,6 +109,8 @@ def _tokens(sig, trees):
         elif c in '({':
             for ft, fv in zip(R.struct_fields(t), tr):
                 walk(ft, fv)
+        elif c == 'v':
+            walk(tr[0], tr[1])      # a variant may hold a descriptor (other implementations send a{sv} options with them)
     for t, tr in zip(R.split_inner(sig), trees):
         walk(t, tr)
     return out
@@ -114,6 +125,8 @@ def _replace_tokens(sig, trees, mapping):
             return [walk(t[1:], x) for x in tr]
         if c in '({':
             return [walk(ft, fv) for ft, fv in zip(R.struct_fields(t), tr)]
+        if c == 'v':
+            return [tr[0], walk(tr[0], tr[1])]
         return tr
     return [walk(t, tr) for t, tr in zip(R.split_inner(sig), trees)]
 
@@ -393,7 +406,7 @@ def recv_msg(draw, tok_base):
         m = draw(S.message(body_depth=1))
         m['little'] = draw(st.booleans())
         return m, 0
-    sig, trees, nh = draw(fd_args())
+    sig, trees, nh = draw(fd_args(variants=True))
     # re-base tokens so they are globally distinct
     toks = _tokens(sig, trees)
     mp = {t: tok_base + i for i, t in enumerate(toks)}
